@@ -57,36 +57,52 @@ def legal(sig, ret):
     return True
 
 
+NEW = [("typeguard", "new"), ("beartype", "new")]
+DC = [("typeguard", "dataclass"), ("beartype", "dataclass")]
+OLD = [("typeguard", "old"), ("beartype", "old")]
+S5 = [(), (2,), (3,), (1, 2), (2, 2)]
+S7 = [(), (1,), (2,), (3,), (1, 2), (2, 2), (2, 3)]
+S4 = [(2,), (3,), (1, 2), (2, 2)]
+
+
 def signatures(tier):
-    """Yield (sig tuple, ret or None, shapes list for params, shapes list for ret)."""
+    """Yield (sig tuple, ret or None, param shapes, return shapes, variants, call styles).
+    A failing call costs 1-2 ms (message formatting), so the products are sized for that."""
     rets = [None] + D + SYM
+    all2 = ["pos", "kw"]
+    all4 = ["pos", "kw", "kwrev", "mixed"]
     if tier == "quick":
         for d in D:
             for r in rets:
-                yield (d,), r, S, S
+                yield (d,), r, S, S5, NEW + DC + OLD, all2
         for sig in itertools.product(D + SYM[:1], repeat=2):
-            yield sig, None, S, S
+            yield sig, None, S7, S, NEW + DC, all4
             for r in ["a", "*#v", "a+1"]:
-                yield sig, r, S[:6], S[:4]
+                yield sig, r, S5[1:], S5[:3], NEW, ["pos", "kwrev"]
         for sig in itertools.product(D_Q3, repeat=3):
-            yield sig, None, S[:6], S
+            yield sig, None, S4, S, NEW, ["pos", "kwrev"]
     else:
         for d in D:
             for r in rets:
-                yield (d,), r, S, S
+                yield (d,), r, S, S, NEW + DC + OLD, all2
         for sig in itertools.product(D + SYM, repeat=2):
-            for r in rets:
-                yield sig, r, S, S
+            yield sig, None, S, S, NEW + DC + OLD, all4
+            for r in ["a", "b a", "*v a", "*#v", "a+1", "a*b"]:
+                yield sig, r, S7[1:], S5, NEW, ["pos", "kwrev"]
         for sig in itertools.product(D + SYM[:2], repeat=3):
-            yield sig, None, S, S
+            yield sig, None, S7[1:], S, NEW, ["pos", "kwrev"]
         for sig in itertools.product(D_Q3, repeat=3):
+            yield sig, None, S7[1:], S, DC, ["kw", "mixed"]
             for r in ["a", "*v a", "a*b"]:
-                yield sig, r, S[:7], S[:7]
-        for k in (4, 5):
-            for sig in itertools.product(FAM_VAR, repeat=k):
-                yield sig, None, S_VAR if k == 4 else S_VAR[:4], S
+                yield sig, r, S4, S4, NEW, ["pos"]
+        for sig in itertools.product(FAM_VAR, repeat=4):
+            yield sig, None, S_VAR, S, NEW, ["pos"]
+        for sig in itertools.product(FAM_VAR[:3], repeat=5):
+            yield sig, None, S_VAR[:4], S, NEW, ["kwrev"]
         for sig in itertools.product(FAM_SINGLE, repeat=4):
-            yield sig, None, S_SINGLE, S
+            yield sig, None, S_SINGLE, S, NEW, ["mixed"]
+        for sig in itertools.product(FAM_SINGLE[:3], repeat=5):
+            yield sig, None, S_SINGLE[1:5], S, NEW, ["pos"]
 
 
 def _make(sig, ret, tc_name, style, retbox):
@@ -159,7 +175,7 @@ def _shard(job):
                 nontrivial.add(key)
         return cache[key]
 
-    for sig, ret, pshapes, rshapes_l, variants in job["work"]:
+    for sig, ret, pshapes, rshapes_l, variants, styles in job["work"]:
         sig = tuple(sig)
         stats["signatures"] += 1
         retbox = [None]
@@ -181,7 +197,7 @@ def _shard(job):
                 cons = pcons + ([(ret, rsh)] if ret is not None else [])
                 exp = oracle(cons)
                 for (tc_name, style), fn in fns.items():
-                    for cs in call_styles(len(sig)):
+                    for cs in styles:
                         stats["calls"] += 1
                         try:
                             do_call(fn, args, cs)
@@ -231,18 +247,10 @@ def _shard(job):
 
 
 def run(ctx):
-    sigs = [(s, r, ps, rs) for s, r, ps, rs in signatures(ctx.tier) if legal(s, r)]
-    work = []
-    for i, (s, r, ps, rs) in enumerate(sigs):
-        variants = [("typeguard", "new"), ("beartype", "new")]
-        if len(s) <= 3:
-            variants += [("typeguard", "dataclass"), ("beartype", "dataclass")]
-        if len(s) <= 2:
-            variants += [("typeguard", "old"), ("beartype", "old")]
-        work.append((list(s), r, ps, rs, variants))
+    work = [(list(s), r, ps, rs, [v for v in var if not (v[1] == "dataclass" and r is not None)], st) for s, r, ps, rs, var, st in signatures(ctx.tier) if legal(s, r)]
     # balance: sort by estimated cost descending then round-robin
     def cost(w):
-        return (len(w[2]) ** len(w[0])) * (len(w[3]) if w[1] is not None else 1) * len(w[4])
+        return (len(w[2]) ** len(w[0])) * (len(w[3]) if w[1] is not None else 1) * len(w[4]) * len(w[5])
 
     work.sort(key=cost, reverse=True)
     nsh = common.NCPU * 6
